@@ -91,6 +91,7 @@ pub fn run(cfg: &Cfg) -> Outcome {
             let mut opts = DsOpts::default();
             opts.zero_frags = rng.chance(1, 3);
             opts.big = rng.chance(1, 10);
+            opts.nested_pixel = idx % 3 == 2;
             let mut ds = gen_dataset(rng, &opts);
             // make encapsulated pixel data frequent in this property
             if rng.chance(1, 2) {
@@ -223,6 +224,16 @@ pub fn run(cfg: &Cfg) -> Outcome {
             }
 
             // ---------- (c) fragments one by one
+            // A data set that also carries (7FE0,0010) inside a sequence item (an icon image)
+            // gets its own violation key: the collector takes the first pixel data it meets.
+            fn nested_pixel(ds: &[GElem], depth: usize) -> bool {
+                ds.iter().any(|e| match &e.val {
+                    GVal::Seq(s) => s.items.iter().any(|it| nested_pixel(&it.elems, depth + 1)),
+                    _ => depth > 0 && e.tag == (0x7FE0, 0x0010),
+                })
+            }
+            let nested = nested_pixel(&ds, 0);
+            let fkey = |k: String| if nested { format!("fragments|{}|nested-pixel-data-in-an-item", tc.name) } else { k };
             if let Some(pe) = full.get(Tag(0x7FE0, 0x0010)) {
                 if let Value::PixelSequence(ps) = pe.value() {
                     for with_bot in [true, false] {
@@ -258,20 +269,20 @@ pub fn run(cfg: &Cfg) -> Outcome {
                             Ok((bot, frags))
                         });
                         let mode = if with_bot { "bot-first" } else { "fragments-only" };
-                        l.class(format!("fragments|{}|{}|{}", tc.name, mode, pix));
+                        l.class(format!("fragments|{}|{}|{}|nested={}", tc.name, mode, pix, nested));
                         let mut r = base.clone();
                         r["mode"] = json!(mode);
                         match res {
                             Err(p) => l.violation(format!("fragments|panic|{}", panic_loc(&p)), p, r),
                             Ok(Err(e)) => {
                                 let kind: String = e.split(':').next().unwrap_or("?").to_string();
-                                l.violation(format!("fragments|{}|{}|{}", tc.name, mode, kind), e.chars().take(300).collect::<String>(), r)
+                                l.violation(fkey(format!("fragments|{}|{}|{}", tc.name, mode, kind)), e.chars().take(300).collect::<String>(), r)
                             }
                             Ok(Ok((bot, mut frags))) => {
                                 let mut want: Vec<Vec<u8>> = ps.fragments().to_vec();
                                 if let Some(b) = &bot {
                                     if &b[..] != ps.offset_table() {
-                                        l.violation(format!("fragments|{}|{}|bot-differs", tc.name, mode), format!("offset table {:?} vs {:?} in the fully read object", b, ps.offset_table()), r.clone());
+                                        l.violation(fkey(format!("fragments|{}|{}|bot-differs", tc.name, mode)), format!("offset table {:?} vs {:?} in the fully read object", b, ps.offset_table()), r.clone());
                                     }
                                 } else {
                                     // documented: the first fragment is the offset table's bytes
@@ -286,7 +297,7 @@ pub fn run(cfg: &Cfg) -> Outcome {
                                     let kind = if la.len() > lw.len() { "extra" } else if la.len() < lw.len() { "missing" } else { "content" };
                                     frags.truncate(8);
                                     l.violation(
-                                        format!("fragments|{}|{}|{}|bot-empty={}", tc.name, mode, kind, ps.offset_table().is_empty()),
+                                        fkey(format!("fragments|{}|{}|{}|bot-empty={}", tc.name, mode, kind, ps.offset_table().is_empty())),
                                         format!("fragments retrieved one by one have lengths {:?}, the fully read object has {:?} (offset table {:?})", la, lw, ps.offset_table()),
                                         r,
                                     );
